@@ -472,4 +472,53 @@ theorem miniChainWrite_frame {root : List Nat} (p : P) (mids mids2 ids2 : List N
   have hne : m ≠ m2 := fun e => hdisjM m2 hm2 (e ▸ hm)
   omega
 
+/-! ## zero-filling a mini sector (`MiniChain::set_len` growing: every mini sector it adds is overwritten) -/
+
+/-- **the write that `miniChainGrow` makes into each mini sector it adds** — 64 zero bytes at offset 0 of mini
+sector `m` — leaves that mini sector all zero, whatever it held (mini sectors are reused without being
+reinitialised), and changes no byte of the mini stream outside it and no sector outside the root chain -/
+theorem miniZero_spec {p : P} (ss : SS p) {root : List Nat} (hroot : chainIds p p.rootStart = .ok root)
+    (hp : Present p root) (nd : root.Nodup) {m : Nat} (hm : m / p.per < root.length) :
+    ∃ p', miniWriteAt p m 0 (List.replicate MINI 0) = .ok p' ∧ SameButSectors p p' ∧ SS p' ∧ Present p' root ∧
+      (∀ i, i ∉ root → p'.sectors[i]? = p.sectors[i]?) ∧
+      (∀ r, r < 64 → byteAt p' root (m * 64 + r) = some 0) ∧
+      (∀ i, ¬ (m * 64 ≤ i ∧ i < m * 64 + 64) → byteAt p' root i = byteAt p root i) := by
+  have hl : (List.replicate MINI (0 : UInt8)).length = 64 := by rw [List.length_replicate]; rfl
+  obtain ⟨p', hw, hsame, ss', hp', hout, hb⟩ :=
+    miniWriteAt_spec ss hroot hp nd (m := m) (off := 0) (chunk := List.replicate MINI 0) hm (by decide) (by rw [hl]; decide)
+  refine ⟨p', hw, hsame, ss', hp', hout, ?_, ?_⟩
+  · intro r hr
+    rw [hb, hl, if_pos (by omega)]
+    have : m * 64 + r - (m * 64 + 0) = r := by omega
+    rw [this, List.getElem?_replicate, if_pos (by rw [MINI_eq]; exact hr)]
+  · intro i hi
+    rw [hb, hl, if_neg (by omega)]
+
+/-- … so the zeroed mini sector reads as 64 zeros through the mini-chain layer, and every other mini
+sector of the mini stream reads what it read before -/
+theorem miniZero_blk {p : P} (ss : SS p) {root : List Nat} (hroot : chainIds p p.rootStart = .ok root)
+    (hp : Present p root) (nd : root.Nodup) {m : Nat} (hm : m / p.per < root.length) :
+    ∃ p', miniWriteAt p m 0 (List.replicate MINI 0) = .ok p' ∧
+      miniBlk p' root m = List.replicate 64 0 ∧
+      (∀ m2, m2 ≠ m → m2 / p.per < root.length → miniBlk p' root m2 = miniBlk p root m2) := by
+  obtain ⟨p', hw, hsame, ss', hp', _, hz, hfr⟩ := miniZero_spec ss hroot hp nd hm
+  have hper : p'.per = p.per := sameButSectors_per hsame
+  refine ⟨p', hw, ?_, ?_⟩
+  · apply List.ext_getElem?
+    intro r
+    by_cases hr : r < 64
+    · rw [miniBlk_get ss' hp' m r hr, hz r hr, List.getElem?_replicate, if_pos hr]
+    · have hlen := miniBlk_length ss' hp' (m := m) (by rw [hper]; exact hm)
+      rw [List.getElem?_eq_none (by omega), List.getElem?_eq_none (by rw [List.length_replicate]; omega)]
+  · intro m2 hne hm2
+    apply List.ext_getElem?
+    intro r
+    by_cases hr : r < 64
+    · rw [miniBlk_get ss' hp' m2 r hr, miniBlk_get ss hp m2 r hr]
+      apply hfr
+      omega
+    · have h1 := miniBlk_length ss' hp' (m := m2) (by rw [hper]; exact hm2)
+      have h2 := miniBlk_length ss hp (m := m2) hm2
+      rw [List.getElem?_eq_none (by omega), List.getElem?_eq_none (by omega)]
+
 end CfbVerif.Phys
